@@ -5,3 +5,5 @@ CONSTANTS
   Emit = TRUE
 INVARIANT Partition
 INVARIANT EmitOK
+INVARIANT Homogeneous
+INVARIANT EmitScales
